@@ -233,6 +233,41 @@ func c03(c *Ctx) {
 		r.Check(okAll && n >= 1, "C03.K3", fi.Name(), "encodes the whole value on every return", c.P.Pos(fi.Node().Pos()), "return <encoder>(<receiver>)",
 			"the converter the snapshot writer uses returns an encoding of only a part of the value on some path (or no direct encoding of the receiver): the value read back differs from the one saved")
 	}
+	// K3d: timestampToTime returns the zero time only for nil or the IsZero marker the writer sets (not for any value of the
+	// payload field: the Unix epoch is a legitimate time, e.g. a topic time set by services)
+	if tt := c.P.Func("ircserver.timestampToTime"); tt != nil && tt.Body() != nil {
+		info := tt.Info()
+		g := c.Graph(tt)
+		okAll, n := true, 0
+		for _, rv := range g.Returns() {
+			rs := rv.Node.(*ast.ReturnStmt)
+			if len(rs.Results) != 1 {
+				continue
+			}
+			if _, isLit := ast.Unparen(rs.Results[0]).(*ast.CompositeLit); !isLit {
+				continue
+			}
+			n++
+			// every condition on the way mentions only nil tests and the IsZero field
+			for _, v := range g.V {
+				for _, e := range v.Succ {
+					if e.Cond == nil || !(e.To == rv.ID || g.Reach(e.To, nil, nil)[rv.ID]) {
+						continue
+					}
+					ast.Inspect(e.Cond, func(m ast.Node) bool {
+						if se, ok := m.(*ast.SelectorExpr); ok {
+							if fv := astx.FieldSel(info, se); fv != nil && fv.Name() != "IsZero" {
+								okAll = false
+							}
+						}
+						return true
+					})
+				}
+			}
+		}
+		r.Check(okAll && n >= 1, "C03.K3", tt.Name(), "the zero time is restored only for the writer's IsZero marker", c.P.Pos(tt.Node().Pos()), "return time.Time{} under t == nil || t.IsZero",
+			"the timestamp reader maps some stored payload values (e.g. UnixNano == 0) to the zero time although the writer marked them as set: such a time differs after save + load")
+	}
 	// K3b inverse converter pairs
 	type conv struct{ w, r string }
 	table := []conv{
